@@ -157,7 +157,7 @@ class MovingWindow(ChangeDetector):
             self._change_score,
             self.bandwidth,
         )
-        tuned_threshold = np.quantile(scores, 1 - self.level)
+        tuned_threshold = np.quantile(scores, 1 - self.level, method="higher")
         return tuned_threshold
 
     @staticmethod
